@@ -543,3 +543,42 @@ def check_handler_table(ctx: CheckContext, p: Program, r: Resolver, rule: str = 
                                 ctx.ob(rule + "-FORM", f"{f.qualname}:{norm_stmt(n)}", f"{f.module.relpath}:{n.lineno}", ok,
                                        "" if ok else f"zone identifier (text) is compared with the enumeration member ZoneType.{m[1]}: never equal")
     return n_cmp
+
+
+def check_division_guards(ctx: CheckContext, p: Program, r: Resolver, funcs: List[FuncInfo], rule: str = "DIV-GUARD"):
+    """`(a / X) if X <cmp> 0 else c`: a guard that is meant to protect a division by X must exclude X == 0."""
+    ctx.rule(rule, "a conditional whose guarded arm divides by X and whose test compares X with zero uses a strict comparison (X > 0, X != 0, X < 0): "
+                   "a non-strict guard lets 0/0 = NaN into the result record")
+    n = 0
+    for f in funcs:
+        if isinstance(f.node, ast.Lambda):
+            continue
+        for node in body_nodes(f):
+            test = body = None
+            if isinstance(node, ast.IfExp):
+                test, body = node.test, [node.body]
+            elif isinstance(node, ast.If):
+                test, body = node.test, node.body
+            if test is None or not (isinstance(test, ast.Compare) and len(test.ops) == 1):
+                continue
+            l, op, rr = test.left, test.ops[0], test.comparators[0]
+            zero = lambda e: isinstance(e, ast.Constant) and isinstance(e.value, (int, float)) and not isinstance(e.value, bool) and e.value == 0
+            if zero(rr):
+                x = l
+            elif zero(l):
+                x = rr
+            else:
+                continue
+            xt = ast.unparse(x)
+            divides = False
+            for b in body:
+                for d in ast.walk(b):
+                    if isinstance(d, ast.BinOp) and isinstance(d.op, (ast.Div, ast.FloorDiv, ast.Mod)) and ast.unparse(d.right).strip("()") == xt.strip("()"):
+                        divides = True
+            if not divides:
+                continue
+            n += 1
+            ok = isinstance(op, (ast.Gt, ast.Lt, ast.NotEq))
+            ctx.ob(rule, f"{f.qualname}:{norm_stmt(test)}", f"{f.module.relpath}:{test.lineno}", ok,
+                   "" if ok else f"`{ast.unparse(test)}` guards a division by `{xt}` but admits {xt} == 0: the result is NaN/inf (0/0) instead of the fallback value")
+    return n
